@@ -236,6 +236,23 @@ def check_solve(case):
         t = t + float(np.min(ref))
     else:
         require(abs(res[-1].time - t) <= 1e-11 * abs(t), "solve-final-time", "final time %r, sum of the minimum time steps %r" % (res[-1].time, t))
+        # the computation is continued on the SAME solver object with another CFL number: every step must use the new one
+        cfl2 = case["cfl"] * (0.5 if case["nit"] % 2 else 1.6)
+        nlog = len(log)
+        if case["integ"] != "gear" and all(np.all(np.isfinite(d)) for d in res[-1].data):
+            solver.restart(res[-1], cfl2, stop={"maxit": 2}, directives=directives)
+            for k, (tk, data, dtk) in enumerate(log[nlog:]):
+                pk = cases.prim_from_cons(md, data)
+                if not all(np.all(np.isfinite(x)) for x in pk) or (md["name"] not in ("convection", "burgers") and (np.any(pk[0] <= 0) or np.any(pk[-1] <= 0))):
+                    break
+                with np.errstate(all="ignore"):
+                    ref = cfl2 * size / analytic_radius(md, pk)
+                if case["dtlocal"]:
+                    finr = np.isfinite(ref)
+                    require(dtk.shape == ref.shape and np.all(np.abs(dtk[finr] - ref[finr]) <= 1e-11 * ref[finr]), "restart-dtlocal", "restart with CFL %g after a solve with CFL %g: step %d does not use each cell's own step for the new CFL" % (cfl2, case["cfl"], k))
+                else:
+                    require(dtk.ndim == 0 and abs(float(dtk) - float(np.min(ref))) <= 1e-11 * float(np.min(ref)), "restart-dt-global",
+                            "restart with CFL %g after a solve with CFL %g on the same solver: step %d receives dt=%r, expected %r" % (cfl2, case["cfl"], k, dtk.tolist(), float(np.min(ref))))
     return dict(nontrivial=True, labels=["integ:" + case["integ"], "dtlocal" if case["dtlocal"] else "dtglobal", "model:" + md["name"]])
 
 
